@@ -896,6 +896,10 @@ func c19EndToEnd(j *Job) {
 			}
 		}
 	}
+	// a T1-init failure verdict that lost the race against the INIT ACK (scenario of C04)
+	for _, il := range []bool{false, true} {
+		j.Explore(fmt.Sprintf("LT/il%v", il), lateT1InitScenario(epCfg{NoInterleave: !il, MTU: 228, RTOMax: 4000, InitTSN: 0xFFFFFFFD}, epCfg{Server: true, NoInterleave: !il, MTU: 228, RTOMax: 4000, InitTSN: 9}), Budget{}, nil)
+	}
 	// handshake timers against a peer that goes silent
 	for _, il := range []bool{false, true} {
 		for _, rm := range []float64{4000, 0, 300} {
